@@ -89,23 +89,34 @@ class OrderedTaskGroup(TaskGroup):
 
     def __init__(self, **data) -> None:
         super().__init__(**data)
-        # add a constraint between each task
-        for i in range(len(self.list_of_tasks) - 1):
+        # add a constraint between each task and the next scheduled one: optional tasks
+        # that are not scheduled are skipped
+        nb_tasks = len(self.list_of_tasks)
+        for i in range(nb_tasks - 1):
             task_before = self.list_of_tasks[i]
-            task_after = self.list_of_tasks[i + 1]
-            if self.kind == "lax":
-                order_assertion = task_before._end <= task_after._start
-            elif self.kind == "strict":
-                order_assertion = task_before._end < task_after._start
-            else:  # kind == 'tight':
-                order_assertion = task_before._end == task_after._start
-            if task_before.optional or task_after.optional:
-                # both tasks must be scheduled so that the order applies
-                order_assertion = z3.Implies(
-                    z3.And(task_before._scheduled, task_after._scheduled),
-                    order_assertion,
-                )
-            self._scheduled_assertion += [order_assertion]
+            for j in range(i + 1, nb_tasks):
+                task_after = self.list_of_tasks[j]
+                tasks_between = self.list_of_tasks[i + 1 : j]
+                if any(not task.optional for task in tasks_between):
+                    break  # a mandatory task lies between them
+                if self.kind == "lax":
+                    order_assertion = task_before._end <= task_after._start
+                elif self.kind == "strict":
+                    order_assertion = task_before._end < task_after._start
+                else:  # kind == 'tight':
+                    order_assertion = task_before._end == task_after._start
+                if task_before.optional or task_after.optional or tasks_between:
+                    # both tasks must be scheduled, and no task between them, so that
+                    # the order applies
+                    order_assertion = z3.Implies(
+                        z3.And(
+                            task_before._scheduled,
+                            task_after._scheduled,
+                            *[z3.Not(task._scheduled) for task in tasks_between],
+                        ),
+                        order_assertion,
+                    )
+                self._scheduled_assertion += [order_assertion]
 
         self.set_z3_assertions(z3.And(self._scheduled_assertion))
 
